@@ -60,6 +60,11 @@ type Analyzer struct {
 	MaxSteps int
 	// RangeFuncYieldExempt: do not decide "yield called after the loop exited" (default: decided, E1.rangefunc)
 	RangeFuncYieldExempt bool
+	// immutable package-level variables and their initial values (globals.go)
+	globImm    map[*ssa.Global]bool
+	globInit   map[*ssa.Package]map[Loc]Term
+	inGlobInit bool
+	objGlobal  map[int]*ssa.Global
 	// extCallback: closures currently being driven by an external (library) function through the callback model
 	extCallback map[*ssa.Function]int
 	// StepsUsed: the largest number of interpreted instructions any entry of this analyzer needed (budget calibration)
